@@ -13,6 +13,7 @@
 import IocProofs.Lemmas.AppLemmas
 import IocProofs.Lemmas.M2StepInv
 import IocProofs.Lemmas.M2Examples
+import IocProofs.Lemmas.SemApp
 namespace Ioc.C13
 open Ioc Ioc.M2 Ioc.App
 
@@ -128,5 +129,33 @@ example : (final appSc).status = .done ∧ ∀ n ∈ [0, 1, 2, 3, 4], (final app
 /-- a failing factory: nothing is invoked -/
 example : ¬ Ready { appScen 0 with sc := cycInitFault } ∧
     (appRun { appScen 0 with sc := cycInitFault }).invoked.map (·.obj.name) = [] := by decide
+
+/-! ### the tie to the code: `callRunners` of the model IS the regenerated program
+
+`Ioc.Progs.app_callRunners` is the syntax tree of `App.callRunners` (app/app.go), re-translated from /repo's source on every
+run into the MiniGo deep embedding (Ioc.GoSem).  Run by the interpreter — `Run()` of the runner at position i fails iff the
+model's runner does, `SortOrderedComponents` answers with an arbitrary arrangement `sorted` of the positions (its contract is
+C12's business) — it invokes exactly the model's prefix, in that order, returns nil iff no invoked runner failed, and clears
+the runner list only then.  For EVERY list of runners and every arrangement. -/
+
+theorem C13_code_callRunners (rs : List Runner) (sorted : List Nat) :
+    Go.run (Sem.crPrims rs sorted) Progs.app_callRunners [] {} =
+      if rs.length = 0 then some (.nil, {})
+      else some (if (Sem.callIdx rs sorted).2 then .nil else Sem.errA,
+                 { invoked := (Sem.callIdx rs sorted).1, cleared := (Sem.callIdx rs sorted).2 }) :=
+  Sem.app_callRunners_sem rs sorted
+
+/-- the positions the program invoked are the runners `App.callRunners` (the model function of C13_prefix / C13_error)
+    invokes on the sorted list, with the same verdict -/
+theorem C13_code_is_model (rs : List Runner) (sorted : List Nat) (hv : ∀ i ∈ sorted, i < rs.length) :
+    App.callRunners (sorted.filterMap (fun i => rs[i]?)) =
+      (((Sem.callIdx rs sorted).1).filterMap (fun i => rs[i]?), (Sem.callIdx rs sorted).2) :=
+  Sem.callIdx_model rs sorted hv
+
+/-- non-vacuity: three runners, sorted as 2,0,1, the one at position 0 fails: positions 2 and 0 are invoked, an error is
+    returned, the list is not cleared -/
+example : Go.run (Sem.crPrims [⟨⟨7, 0⟩, .plain, 0, true⟩, ⟨⟨8, 0⟩, .plain, 0, false⟩, ⟨⟨9, 0⟩, .prio, 1, false⟩] [2, 0, 1])
+    Progs.app_callRunners [] {} = some (Sem.errA, { invoked := [2, 0], cleared := false }) :=
+  (Sem.app_callRunners_sem _ _).trans (by rfl)
 
 end Ioc.C13
